@@ -9,7 +9,14 @@
 (* type and tag together address a stanza, so "T" is not addressed to D |     *)
 (* "N" = a stanza of D's type whose tag is another spelling-neighbour of D's  *)
 (* tag (same bytes under a lenient base64 reading): not addressed to D |      *)
-(* "Y" = a stanza of a foreign type that has no arguments at all) and          *)
+(* "Y" = a stanza of a foreign type that has no arguments at all |            *)
+(* "M" = a stanza of D's type with another tag and the wrong number of        *)
+(* arguments: the matching loop passes over it (its tag is not D's), a plain  *)
+(* identity refuses the file when it reaches it.  The stanzas are read in     *)
+(* order, so "M" matters exactly when it stands in front of the stanza that   *)
+(* opens the file.  Files with "M" given to TLC also hold "D": without "D"    *)
+(* the code is known to refuse differently with and without a remembered key  *)
+(* (no match / malformed stanza), a refusal either way; DESIGN 10.4) and       *)
 (* the passphrase callback answers "right" | "wrong" | "error" if asked.      *)
 (* One action per step of Unwrap: Match, Prompt, ParseKey, Validate, Cache.   *)
 (* CacheBeforeValidate = TRUE is the code before the F8 fix.                  *)
@@ -17,7 +24,7 @@ EXTENDS Integers, Sequences, FiniteSets, TLC, Json
 
 CONSTANTS Stored,               \* "D", "A" (another key of the same type), "O" (a key of the other SSH type) or "G" (the
                                 \* declared key's point negated: another key with the same Curve25519 coordinate)
-          Files,                \* set of files (sequences over {"D","A","U","X","T","N","Y"})
+          Files,                \* set of files (sequences over {"D","A","U","X","T","N","Y","M"})
           MaxCalls,
           CacheBeforeValidate   \* deviation switch
 
@@ -26,8 +33,13 @@ VARIABLES cache, hist
 vars == <<cache, hist>>
 
 Addressed(f, k) == \E i \in 1..Len(f) : f[i] = k
-\* what a plain identity for key k makes of file f
-Plain(k, f) == IF Addressed(f, k) THEN "ok" ELSE "nomatch"
+\* what a plain identity for key k makes of file f: the stanzas in order, up to the first that is k's or is malformed
+RECURSIVE Scan(_, _, _)
+Scan(k, f, i) == IF i > Len(f) THEN "nomatch"
+                 ELSE IF f[i] = k THEN "ok"
+                 ELSE IF f[i] = "M" THEN "err_malformed"
+                 ELSE Scan(k, f, i + 1)
+Plain(k, f) == Scan(k, f, 1)
 
 \* one call on an identity whose cache is c: [out, prompted, cache']
 Call(c, f, a) ==
